@@ -312,3 +312,40 @@ void op_crc(const unsigned char *p, size_t n) {
     uint32_t a = (uint32_t)liberasurecode_crc32_alt(0, p, n);
     res_end("%u %u", s, a);
 }
+
+/* ---------------------------------------------------------------- oracle sweeps */
+int sweep_dec(stripe_t *s, uint64_t gone, int force, int shuffle_order, int mode, const char *prop) {
+    char *fr[80]; int n = 0;
+    for (int i = 0; i < s->n; i++) if (!((gone >> i) & 1)) fr[n++] = s->all[i];
+    if (shuffle_order) for (int i = n - 1; i > 0; i--) { int j = (int)rnd(i + 1); char *t = fr[i]; fr[i] = fr[j]; fr[j] = t; }
+    char *od = NULL; uint64_t ol = 0;
+    int rc = liberasurecode_decode(s->desc, fr, n, s->flen, force, &od, &ol);
+    int v = rc;
+    if (rc == 0) {
+        v = (ol == s->len && (ol == 0 || !memcmp(od, s->data, ol))) ? 0 : 1;
+        liberasurecode_decode_cleanup(s->desc, od);
+    }
+    if (v == 1 || (v != 0 && mode == 0))
+        oracle_fail(prop, "decode without mask %llx (%s order, force %d) gave %s%d: be=%d (%d,%d,%d) len=%llu ct=%d",
+                    (unsigned long long)gone, shuffle_order ? "shuffled" : "index", force, v == 1 ? "wrong bytes " : "error ", v,
+                    s->c.be, s->c.k, s->c.m, s->c.hd, (unsigned long long)s->len, s->c.ct);
+    return v;
+}
+
+int sweep_rec(stripe_t *s, uint64_t gone, int dest, int mode, const char *prop) {
+    char *fr[80]; int n = 0;
+    for (int i = 0; i < s->n; i++) if (!((gone >> i) & 1)) fr[n++] = s->all[i];
+    char *of = malloc(s->flen + 16); memset(of, 0xA5, s->flen + 16);
+    int rc = liberasurecode_reconstruct_fragment(s->desc, fr, n, s->flen, dest, of);
+    int v = rc;
+    if (rc == 0) {
+        v = memcmp(of, s->all[dest], s->flen) ? 1 : 0;
+        for (int i = 0; i < 16; i++) if ((unsigned char)of[s->flen + i] != 0xA5) v = 1;
+    }
+    free(of);
+    if (v == 1 || (v != 0 && mode == 0))
+        oracle_fail(prop, "reconstruct of %d without mask %llx gave %s%d: be=%d (%d,%d,%d) len=%llu ct=%d",
+                    dest, (unsigned long long)gone, v == 1 ? "different bytes " : "error ", v,
+                    s->c.be, s->c.k, s->c.m, s->c.hd, (unsigned long long)s->len, s->c.ct);
+    return v;
+}
